@@ -38,6 +38,9 @@ CHECKS = {
  'C09': ('model_checking', 'symbolic execution of clang LLVM IR of every tensor-algebra entry point; z3 nlsat decides per-component identity with mechanically expanded index-notation definitions over the reals, a K-ulp bound (relative to the sum of term magnitudes) by solver-checked local error lemmas, and the inverse-presence condition bit-precisely',
          'Dot, cross, dyadic, magnitude, trace, determinant, transpose, cofactors, adjugate, inverse and all matrix-vector / matrix-matrix product overloads of the four classes, in three numeric types, equal the O-tensor definitions identically over the reals and within 8 ulps of the sum of term magnitudes; Inverse() is present iff the computed determinant is non-zero and equals adjugate/determinant.',
          'standard model of rounding; "well-conditioned" replaced by the magnitude-relative bound; integer exactness follows from the REAL identity while intermediates stay below 2^p (not separately bounded)', '3 C09'),
+ 'C10': ('model_checking', 'symbolic execution of clang LLVM IR of the normalisation kernels and of every construction path / vector-quantity accessor; z3 nlsat decides x/|x| identity over the reals, a 7*2^-p component bound by solver-checked local lemmas plus a unit-length lemma, z3 FP decides the zero-vector case and bit-identity of all paths with the kernels',
+         'Direction / PlanarDirection kernels equal x/|x| over the reals, each component within 7*2^-p relative, hence Euclidean length within 4 ulps of one; zero vectors give exactly +0; every construction path (arrays, vectors, all 17 vector quantities, 2-D/3-D conversions, cross products) is bit-identical to the kernel; Magnitude() has the matching scalar type and value, component accessors return the stored components, magnitude times direction rebuilds the quantity within 16 ulps.',
+         'standard model of rounding, squared length neither overflows nor underflows; exact invariance under power-of-two rescaling is not decided (declared in DESIGN.md); Magnitude() result type pinned by static_assert', '3 C10'),
 }
 NA = {}
 def main():
